@@ -434,9 +434,34 @@ structure StaticFact where
   entryCells : Nat := 0
   deriving Repr
 
+/-- what a function does with a `thread_local!` table -/
+inductive TlUse
+  | lookup   -- finds out whether THIS THREAD's table has a key
+  | insert   -- fills this thread's table
+  | other    -- anything the translator does not recognise
+  deriving DecidableEq, Repr
+
+/-- one function that touches a thread-local table: its operations on it in source
+order, and whether after its first lookup it acquires a lock-shaped global (a miss
+in the thread's table falls through to the table every thread shares) -/
+structure TlFn where
+  ops : List TlUse
+  sharedAfterLookup : Bool
+  deriving Repr
+
+/-- one `static` of a `thread_local!`: every function under src/ that names it -/
+structure ThreadLocalFact where
+  fns : List TlFn
+  deriving Repr
+
 structure GlobalFacts where
   threadLocals : Nat
   statics : List StaticFact
+  /-- every `static` declared in a `thread_local!` (round 4 of C12: state keyed by the running thread) -/
+  threadLocalTables : List ThreadLocalFact := []
+  /-- occurrences of the identity of the running thread (`thread::current`, `ThreadId`) under src/:
+  state keyed by it is thread-affine without any `thread_local!` -/
+  threadIdUses : Nat := 0
   deriving Repr
 
 /-- the mode in which a use of a lock-shaped global acquires it -/
@@ -510,5 +535,29 @@ once inserted (no cell inside the protected value that a later registration or
 compilation could set): one runtime / compilation cannot leave a mark that
 another one reads -/
 def globalsEntriesFrozen (f : GlobalFacts) : Bool := f.statics.all (fun s => s.entryCells == 0)
+
+/-- the decision about one function: everything it does with the thread's table is
+recognised, and if it asks the thread's table it also asks the shared one afterwards -/
+def TlFn.fallsThrough (f : TlFn) : Bool :=
+  !f.ops.contains .other && (!f.ops.contains .lookup || f.sharedAfterLookup)
+
+/-- the decision about thread-local state: every thread-local table is a PURE CACHE —
+no function answers from the running thread's table alone, and nothing asks which thread is running -/
+def threadLocalsPureCaches (f : GlobalFacts) : Bool :=
+  f.threadIdUses == 0 && f.threadLocalTables.all (fun t => t.fns.all TlFn.fallsThrough)
+
+/-- what a lookup function answers on thread `t` for key `k`: `shared` is the table of
+the process (entries are frozen once inserted), `cache t` the table of thread `t` -/
+def tlGet (fn : TlFn) (shared : Nat → Option Nat) (cache : Nat → Nat → Option Nat) (t k : Nat) : Option Nat :=
+  if fn.ops.contains .lookup then
+    match cache t k with
+    | some v => some v
+    | none => if fn.sharedAfterLookup then shared k else none
+  else shared k
+
+/-- a thread's table holds only copies of entries of the shared table (it is filled
+from there: `store` inserts into the shared table first) -/
+def CacheCoherent (shared : Nat → Option Nat) (cache : Nat → Nat → Option Nat) : Prop :=
+  ∀ t k v, cache t k = some v → shared k = some v
 
 end RotoV.Conc.Share
